@@ -99,7 +99,7 @@ Lemma exchange_ok_full cl r g nx c subj styp actor req scopes aud s' i x rt lv s
   exchange cl r (g, nx) c subj styp actor req scopes aud = (s', OExch i x rt lv sc sto) ->
   exists k id ssub aid asub atyp,
     exch_auth cl r c = Some k /\ read_x g false styp subj = Some (id, ssub) /\
-    actor_read g actor = Some (aid, asub, atyp) /\ string_in "veto" scopes = false /\
+    actor_read g actor = Some (aid, asub, atyp) /\ vetoed (policy g) scopes = false /\
     success_result g nx k ssub asub req scopes aud = Some (s', OExch i x rt lv sc sto).
 Proof.
   unfold exchange.
@@ -113,7 +113,8 @@ Proof.
   destruct (x_live g styp id) eqn:LS; cbn [negb]; [|destruct req, r; discriminate].
   destruct ((nonempty asub || match aid with NoId => false | _ => true end) && negb (x_live g atyp' aid)) eqn:LA;
     [destruct req, r; discriminate|].
-  destruct (string_in "veto" scopes) eqn:V; [destruct req, r; discriminate|].
+  destruct (vetoed (policy g) scopes) eqn:V;
+    [destruct (string_in "veto" scopes), (p_late (policy g)), req, r; discriminate|].
   intro H. exists k, id, ssub, aid, asub, atyp'. repeat (split; [reflexivity|]).
   unfold success_result. destruct req; try discriminate;
     match type of H with context [effective_type ?p ?q] => destruct (effective_type p q) end;
@@ -322,7 +323,7 @@ Qed.
 
 Lemma unissuable_is_error cl r s c subj styp actor req scopes aud :
   op_unconfused (Exchange r c subj styp actor req scopes aud) = true ->
-  C15_spec.issuable (policy (fst s)) req && negb (string_in "veto" scopes) && subj_live false (fst s) styp subj && actor_live (fst s) actor = false ->
+  C15_spec.issuable (policy (fst s)) req && negb (vetoed (policy (fst s)) scopes) && subj_live false (fst s) styp subj && actor_live (fst s) actor = false ->
   exists st, snd (exchange cl r s c subj styp actor req scopes aud) = OErr st true /\ C15_spec.is_error st = true.
 Proof.
   intros U N. pose proof (exchange_shape cl r s c subj styp actor req scopes aud) as SH. cbn zeta in SH.
@@ -398,3 +399,22 @@ Lemma act_policies_differ : forall p, p_act p = ActNone -> decided_act p true "b
   (forall q, p_act q = ActChain -> decided_act q false "bob" = "bob>gateway") /\
   (forall q, p_act q = ActDefault -> decided_act q true "bob" = "bob" /\ decided_act q false "bob" = "").
 Proof. intros p H. unfold decided_act. cbn. rewrite H. split; [reflexivity|]. split; [|split]; intros q Hq; rewrite Hq; auto. Qed.
+
+(* round 8: a storage veto at EITHER hook - ValidateTokenExchangeRequest (scope "veto") or
+   CreateTokenExchangeRequest (late: plain error or OAuth error) - is answered with an OAuth error *)
+Lemma veto_is_error cl r s c subj styp actor req scopes aud :
+  vetoed (policy (fst s)) scopes = true ->
+  exists st, snd (exchange cl r s c subj styp actor req scopes aud) = OErr st true /\ C15_spec.is_error st = true.
+Proof.
+  intro V. pose proof (exchange_shape cl r s c subj styp actor req scopes aud) as SH. cbn zeta in SH.
+  destruct SH as [(i & a & rt & lv & sc & sto & X)|SH]; [exfalso|exact SH].
+  destruct (exchange cl r s c subj styp actor req scopes aud) as [s' x] eqn:E. cbn [snd] in X. subst x.
+  destruct s as [g nx]. apply exchange_ok_full in E as (k & id & ssub & aid & asub & atyp & _ & _ & _ & V' & _).
+  cbn [fst] in V. rewrite V in V'. discriminate.
+Qed.
+
+Lemma late_veto_nonvacuous :
+  forall pol, p_late pol <> LateNone -> p_empty pol = false -> vetoed pol ["openid"; "late"] = true.
+Proof.
+  intros pol L E. unfold vetoed, late_refuses, decided_scopes. rewrite E. destruct (p_late pol); [congruence|reflexivity|reflexivity].
+Qed.
